@@ -21,7 +21,8 @@ Cfgs == {"A", "B", "C"}          \* C has the same array shapes as A (grids, q-p
 \* written as the string  data \o variant.
 Variants == {"", "2"}
 HasVariant(c, v) == v = "" \/ c \in {"A", "C"}
-Quantities == {"modulus_adiabatic", "modulus_isothermal", "tp_modulus_adiabatic", "tp_modulus_isothermal", "tp_bulk_vrh", "tp_vp", "tp_volumes", "compliances"}
+Quantities == {"modulus_adiabatic", "modulus_isothermal", "tp_modulus_adiabatic", "tp_modulus_isothermal", "tp_bulk_vrh", "tp_vp", "tp_volumes", "compliances",
+               "tp_attr_adiabatic", "tp_attr_isothermal"}      \* attribute-style names (c11s / c11t) of the pressure base
 Writes == {<<"tp", "cij">>, <<"tp", "bm_VRH">>, <<"tv", "p">>}
 Seeds == {"0", "1", "2", "random"}
 Cwds == {"empty", "junk", "dir_named_like_system", "shadow_data"}   \* shadow_data: entries named like the package's own data files
